@@ -27,7 +27,7 @@ RULE = ('each run = one generated tree + Manifest layout (nesting, several Manif
         'given or a sub-path verified, and the model verdict was not a don\'t-care zone; distinct = '
         'distinct seam event-log digest')
 PLAN = {'quick': {'n': 12000, 'budget_s': 90, 'block': 40},
-        'thorough': {'n': 120000, 'budget_s': 900, 'block': 200}}
+        'thorough': {'n': 800000, 'budget_s': 2400, 'block': 200}}
 ASSUMPTIONS = ['M-verify (sim/model.py) is the reference reading of "matches"; its don\'t-care zones are counted in evidence',
                'enumeration order, mtimes and clock are owned by the seam; the byte store is a real tmpfs']
 
